@@ -263,6 +263,16 @@ Proof.
     destruct (Z.leb_spec B r); destruct (Z.ltb_spec 0 r); lia.
 Qed.
 
+Lemma needZ_spec B ng r : 1 <= B ->
+  (- B < r <= 0 -> needZ B ng r = 0) /\ (B <= r -> needZ B ng r = 1) /\
+  (0 < r < B -> needZ B ng r = B - r + 1) /\
+  (r <= - B -> needZ B ng r = Z.min (B + 1 - ng) (- B - r + 1)).
+Proof.
+  intros HB. unfold needZ.
+  destruct (Z.leb_spec r 0); destruct (Z.ltb_spec (- B) r); cbn [andb];
+    destruct (Z.leb_spec B r); destruct (Z.ltb_spec 0 r); lia.
+Qed.
+
 (* relative position of the packet that follows p, seen from a head at L' *)
 Definition rho (L' : Z) (p : pkt) : Z := s16 (w16 (pseq p - L')).
 
@@ -299,34 +309,24 @@ Proof.
         destruct (Z.ltb_spec ((pseq p - last s) mod 65536) 32768); lia. }
     assert (Hrho_here : last s1 = pseq p -> rho (last s1) p = 0).
     { intros ->. unfold rho. replace (pseq p - pseq p) with 0 by lia. reflexivity. }
-    unfold needZ.
     destruct H as [H|[H|[H|[H|[H|H]]]]].
     + destruct H as (Hr & Hle & _ & _ & _ & El & En & _). rewrite (Hrho_same El) by lia. rewrite En.
-      destruct (Z.leb_spec (r + 1) 0); destruct (Z.ltb_spec (- B) (r + 1)); cbn [andb];
-        destruct (Z.leb_spec B (r + 1)); destruct (Z.ltb_spec 0 (r + 1));
-        destruct (Z.leb_spec r 0); destruct (Z.ltb_spec (- B) r); cbn [andb];
-        destruct (Z.leb_spec B r); destruct (Z.ltb_spec 0 r); lia.
+      pose proof (needZ_spec B (neg s + 1) (r + 1) (proj1 HR)). pose proof (needZ_spec B (neg s) r (proj1 HR)). lia.
     + destruct H as (Hr & Hlt & _ & _ & _ & El & _). rewrite (Hrho_here El).
-      destruct (Z.leb_spec 0 0); destruct (Z.ltb_spec (- B) 0); cbn [andb]; lia.
+      pose proof (needZ_spec B (neg s1) 0 (proj1 HR)). pose proof (needZ_spec B (neg s) r (proj1 HR)). lia.
     + destruct H as (Hr & _ & El & _). rewrite (Hrho_here El).
-      destruct (Z.leb_spec 0 0); destruct (Z.ltb_spec (- B) 0); cbn [andb]; lia.
+      pose proof (needZ_spec B (neg s1) 0 (proj1 HR)). pose proof (needZ_spec B (neg s) r (proj1 HR)). lia.
     + destruct H as (Hr & _ & _ & _ & El & _). rewrite (Hrho_same El) by lia.
-      destruct (Z.leb_spec (r + 1) 0); destruct (Z.ltb_spec (- B) (r + 1)); cbn [andb];
-        destruct (Z.leb_spec B (r + 1)); destruct (Z.ltb_spec 0 (r + 1));
-        destruct (Z.leb_spec r 0); destruct (Z.ltb_spec (- B) r); cbn [andb];
-        destruct (Z.leb_spec B r); destruct (Z.ltb_spec 0 r); lia.
+      pose proof (needZ_spec B (neg s1) (r + 1) (proj1 HR)). pose proof (needZ_spec B (neg s) r (proj1 HR)). lia.
     + destruct H as (Hr & _ & _ & _ & El & _). rewrite (Hrho_same El) by lia.
-      destruct (Z.leb_spec (r + 1) 0); destruct (Z.ltb_spec (- B) (r + 1)); cbn [andb];
-        destruct (Z.leb_spec B (r + 1)); destruct (Z.ltb_spec 0 (r + 1));
-        destruct (Z.leb_spec r 0); destruct (Z.ltb_spec (- B) r); cbn [andb];
-        destruct (Z.leb_spec B r); destruct (Z.ltb_spec 0 r); lia.
+      pose proof (needZ_spec B (neg s1) (r + 1) (proj1 HR)). pose proof (needZ_spec B (neg s) r (proj1 HR)). lia.
     + destruct H as (Hr & _ & _ & n & rest & Hn' & _ & El & _).
       assert (Erho : rho (last s1) p = 1 - n).
       { rewrite El. unfold rho, r, relpos, s16, w16 in *. unfold wf in Hp.
         destruct (Z.ltb_spec ((pseq p - last s - 1) mod 65536) 32768); try lia.
         destruct (Z.ltb_spec ((pseq p - (last s + n) mod 65536) mod 65536) 32768); lia. }
       rewrite Erho.
-      destruct (Z.leb_spec (1 - n) 0); destruct (Z.ltb_spec (- B) (1 - n)); cbn [andb]; lia.
+      pose proof (needZ_spec B (neg s1) (1 - n) (proj1 HR)). pose proof (needZ_spec B (neg s) r (proj1 HR)). lia.
   - intros Hz. cbn zeta in H. destruct (iv_buf s HI Hu) as (HB & Hn).
     pose proof (pow2B_range _ (bi_pow _ _ _ HB)) as HR.
     pose proof (needZ_zero _ _ _ (proj1 HR) Hn Hz) as Hr0.
